@@ -4,13 +4,17 @@ DRIVE_ARGS = ["-prop", "C09"]
 PROOF_VO = ["theories/C09/Props.vo"]
 PROPS_V = "theories/C09/Props.v"
 DESIGN_REF = "DESIGN.md section 5, C09"
-TECHNIQUE = "Coq proof that the step-by-step login model succeeds exactly on the declarative acceptance language (both flows, every delivered package stream and error count) + correspondence with Channel.Login against a scripted peer"
-RULE = ("the valid reply script of both flows and EVERY single edit of it (delete / duplicate / swap / replace by / insert each of 15 other packages at every position, merged / missing / empty rounds), "
-        "field edits (acknowledgement status, message id and status, DONE status bits, parameter count, parameter types and values, NULL parameters, capability masks incl. all-zero / missing / one-entry masks, "
-        "packet size announcements), key variants (512..2048 bit, other PEM block type, truncated, trailing bytes, garbage, empty, bad DER), nonce lengths 0..100, random multi-edit scripts, unsupported modes; "
-        "each under one of three packetisations, random configurations with 0..3 remote servers. One case = one Channel.Login call against the scripted peer. Non-trivial = every case (each is a whole login); distinct by input.")
+TECHNIQUE = "Coq proof of non-interference of the login's writes and outcome in the secrets (data-flow over the tx model, RSA-OAEP abstract) + correspondence with Channel.Login against a scripted peer that owns the private key"
+RULE = ("encrypted logins with random user/host/app names, passwords of any bytes and lengths 0..key capacity+2 (incl. passwords equal to the user name or contained in the application name), 0..3 remote servers, "
+        "nonces of 0..64 bytes, keys of 1024 (thorough: ..2048) bits, valid / packet-size-changing / multi-edited / rejected reply scripts, three packetisations: every packet the client writes is captured by the peer; "
+        "ciphertext spans are decrypted with the private key and blanked; the rest is compared with the model run on the blinded configuration; error text searched for distinctive passwords; control: plain-flow logins (password found in its slot), "
+        "modes below ENCRYPT4 (nothing written). One case = one login. Non-trivial = every case; distinct by input.")
 ASSUMPTIONS = ASSUMPTIONS_COMMON
-LEVEL_TEXT = "filled in with the theorems"
+LEVEL_TEXT = ("C09_noninterference: for every key oracle, encryption function, reply sequence and any two configurations that agree up to the contents of the secrets, equal ciphertexts imply equal bytes on the wire "
+              "(every byte written is a function of public data and of enc(nonce ++ secret) only); C09_outcome_independent_of_secrets: result class, capabilities, packet size are those of the blinded configuration; "
+              "C09_second_message_shape: the secrets travel as enc(nonce ++ secret) - password, every remote password, session key; C09_record_slots_empty + C09_first_message: the record on the wire has empty password slots; "
+              "C09_control_plain_password: the plain flow does carry the password (control). The harness decrypts the ciphertexts with the private key (nonce ++ secret, pairwise distinct, fresh 32-byte session key) and compares all "
+              "other bytes with the model run on the blinded configuration. Cryptographic strength of RSA-OAEP / crypto/rand is outside the model.")
 LEVEL_NOTE = "Trusted: Coq kernel; hand-written login/rx/tx/package models (validated by correspondence on every run); Go harness and standard-library crypto as key oracle; extraction + driver."
 def nontrivial(c):
     return True
